@@ -175,6 +175,29 @@ ParseFlat(T, toks, compile) ==
 FlatEval(T, toks, compile) ==
   LET f == ParseFlat(T, toks, compile) IN IF f.err # "none" THEN [k |-> "err", why |-> f.err] ELSE Eval(f)
 
+\* ---- FlatEx::var_indices_ordered: variables in the order in which evaluation first touches their nodes -------------
+(* For every operator in prio order: the node directly left (idx) and directly right (idx + 1) of it, each node    *)
+(* reported at most once; variable nodes give their index in the sorted variable list (1-based), numbers nothing.  *)
+NodeVarNames(f) == SortNames({f.nodes[j].val.v : j \in {q \in 1..Len(f.nodes) : f.nodes[q].kind = "var"}})
+VarIdxOf(f, j) == LET vs == NodeVarNames(f) IN CHOOSE q \in 1..Len(vs) : vs[q] = f.nodes[j].val.v
+RECURSIVE VioScan(_, _, _, _)
+VioScan(f, p, taken, acc) ==
+  IF p > Len(f.prio) THEN acc
+  ELSE LET idx == f.prio[p]
+           one(j, tk, a) == IF j \in tk \/ f.nodes[j].kind # "var" THEN a ELSE Append(a, VarIdxOf(f, j))
+           a1 == one(idx, taken, acc)
+           a2 == one(idx + 1, taken \cup {idx}, a1)
+       IN VioScan(f, p + 1, taken \cup {idx, idx + 1}, a2)
+VarIndicesOrdered(f) == VioScan(f, 1, {}, <<>>)
+\* what the documentation promises about it: every variable *occurrence* that is an operand of some operator appears
+\* exactly once (a lone variable without operator gives the empty list), in an order compatible with EvalSteps
+VioSound(f) ==
+  LET vio == VarIndicesOrdered(f)
+      occ == {j \in 1..Len(f.nodes) : f.nodes[j].kind = "var"}
+  IN /\ Len(f.ops) > 0 => Len(vio) = Cardinality(occ)
+     /\ \A x \in 1..Len(NodeVarNames(f)) :
+           Cardinality({q \in 1..Len(vio) : vio[q] = x}) = (IF Len(f.ops) > 0 THEN Cardinality({j \in occ : VarIdxOf(f, j) = x}) ELSE 0)
+
 \* ---- eval_flatex_consuming_vars: the take-or-clone scan -----------------------------------------------------
 (* vi: the list of variable indices of the nodes (usize::MAX entries modelled as 0).  For the node at    *)
 (* position p (a variable with index x): count the entries equal to x; if more than one, mark the LAST   *)
